@@ -40,6 +40,7 @@ type lfCase struct {
 	Shape    string  `json:"shape"`
 	Same     bool    `json:"same"`
 	Decided  *bool   `json:"decided"`
+	Refused  bool    `json:"refused"`
 }
 
 // what the caller supplies for document variant d
@@ -120,7 +121,8 @@ func (d lfDoc) build(pool *KeyPool) (*docdid.Doc, error) {
 			svc.RecipientKeys = []string{"did:example:123#recipient"}
 			svc.RoutingKeys = []string{"did:example:123#routing"}
 			svc.Accept = []string{"didcomm/v2"}
-			svc.Properties = map[string]interface{}{"custom": "v"}
+			// (names whose UTF-16 order differs from their UTF-8 / code point order)
+			svc.Properties = map[string]interface{}{"custom": "v", "\U0001f600": 1, "\ufb33": 2}
 		}
 
 		doc.Service = append(doc.Service, svc)
@@ -228,7 +230,7 @@ func (d lfDoc) expected(pool *KeyPool, id string) lfSummary {
 		rest := map[string]interface{}{}
 		if i == 0 && len(d.keys) > 1 {
 			rest = map[string]interface{}{"priority": 7, "recipientKeys": []string{"did:example:123#recipient"},
-				"routingKeys": []string{"did:example:123#routing"}, "accept": []string{"didcomm/v2"}, "custom": "v"}
+				"routingKeys": []string{"did:example:123#routing"}, "accept": []string{"didcomm/v2"}, "custom": "v", "\U0001f600": 1, "\ufb33": 2}
 		}
 
 		s.Svcs = append(s.Svcs, fmt.Sprintf("svc-%d|Type%d|%s|%s", i+1, i+1, ep, refJCSSimple(rest)))
@@ -658,6 +660,22 @@ func longformReplay(args []string) {
 				text, _ = refJCS(req)
 			case "member_case":
 				text = []byte(strings.Replace(strings.Replace(string(canon), `"delta":`, `"Delta":`, 1), `"suffixData":`, `"SuffixData":`, 1))
+			case "truncated_commitment", "empty_commitment":
+				// the code and length bytes of SHA-256, followed by too few digest bytes / by none
+				bad := "EiA"
+				if c.Shape == "empty_commitment" {
+					bad = "Eg"
+				}
+
+				if c.Doc%2 == 0 {
+					req["suffixData"].(map[string]interface{})["recoveryCommitment"] = bad
+				} else {
+					// (the delta hash of the suffix data follows the delta: only the commitment is wrong)
+					req["delta"].(map[string]interface{})["updateCommitment"] = bad
+					req["suffixData"].(map[string]interface{})["deltaHash"] = refModelHash(req["delta"], sha2_256)
+				}
+
+				text, _ = refJCS(req)
 			case "escaped_member_name":
 				text = []byte(strings.Replace(string(canon), `"delta":`, `"\u0064elta":`, 1))
 			default:
@@ -673,6 +691,14 @@ func longformReplay(args []string) {
 			}
 
 			col.sample(map[string]interface{}{"case": c, "accepted": perr == nil})
+
+			if c.Refused {
+				if perr == nil {
+					fail("process-operation", "a create request whose commitment is no multihash ("+c.Shape+") is answered with a DID", "refused", pres.Document.ID())
+				}
+
+				return
+			}
 
 			if perr != nil {
 				if c.Same {
